@@ -57,8 +57,8 @@ EXPLANATION = (
     "[compression] s/compression/*: compress is followed by a sync flush on every path, decompression applied to the payload only - structural; "
     "bounded: rekey/compression-contexts-restart-together, tables/compression-handled (evaluated _newKeys). "
     "[tables] s/tables/*, tables/*: offered MACs / ciphers / compressions have table entries - structural. "
-    "[version exchange] s/version/*: the scan loop's exits are classified on the CFG (banner lines skipped, rest preserved, length limit); two of the "
-    "exits are the known findings F35a / F35b - structural; bounded witnesses version/* (streams under every two-way split). "
+    "[version exchange] s/version/*: the scan loop's exits are classified on the CFG (banner lines skipped, rest preserved, length limit); the two "
+    "exits that were findings F35a / F35b are closed since fix 91a3aef (revert mutants in MUTANTS) - structural; bounded witnesses version/* (streams under every two-way split). "
     "Bounded evidence only: sender/compression-framing's 'one frame per packet' with a stateful compressor and rekey/compression-contexts-restart-together "
     "(depends on object identity across _newKeys; no structural decider written). Not decided: the real cryptography, key exchange."
 )
@@ -837,6 +837,10 @@ def check_version(ctx):
     res = run([b"x" * 4999 + b"\n"])
     ctx.check(any(e[0] == "disconnect" for e in res[0][3]) and not [e for e in res[0][3] if e[0] == "getPacket"], "version/length-limit", q + " | <endless banner>",
               "5000 bytes without a version line are neither refused nor kept away from the packet parser (no length limit on the identification text)")
+    res = run([b"x" * 4999 + b"\nSSH-2.0-peer\r\n" + tail])
+    ctx.check(any(e[0] == "disconnect" for e in res[0][3]) and not res[0][0] and not [e for e in res[0][3] if e[0] == "getPacket"], "version/length-limit",
+              q + " | <version line beyond the limit>",
+              "after refusing an identification text longer than the limit the transport still goes on to accept a version line / parse packets from the same buffer")
     state.clear()
 
 
@@ -939,6 +943,15 @@ MUTANTS = [
            '        messages = self._blockedByKeyExchange\n        self._blockedByKeyExchange = None\n        for messageType, payload in messages:\n            self.sendPacket(messageType, payload)\n        self._keyExchangeState = self._KEY_EXCHANGE_NONE\n', expect_rule='s/rekey/flush-in-order'),
     Mutant('s-verify-compares-prefix', TR, '        return hmac.compare_digest(mac, outer)',
            '        return hmac.compare_digest(mac[:8], outer[:8])', expect_rule='s/mac/whole-digest-compared'),
+    # reverts of fix commit 91a3aef (F35a: the for-else `return`; F35b: the `break`), each reported on the finding's construct by both layers
+    Mutant("revert-F35a-no-wait-for-version-line", TR, '                    break\n            else:\n                # Only lines preceding the version string were received so\n                # far (RFC 4253 section 4.2); wait for the version string.\n                return\n        packet = self.getPacket()',
+           '                    break\n        packet = self.getPacket()', expect_rule="version/packets-only-after-version"),
+    Mutant("revert-F35a-no-wait-for-version-line-structural", TR, '                    break\n            else:\n                # Only lines preceding the version string were received so\n                # far (RFC 4253 section 4.2); wait for the version string.\n                return\n        packet = self.getPacket()',
+           '                    break\n        packet = self.getPacket()', expect_rule="s/version/packets-only-after-version"),
+    Mutant("revert-F35b-scan-continues-after-version-line", TR, '                    # Everything after the version line is binary packet\n                    # data, not more identification lines.\n                    break\n            else:\n                # Only lines preceding the version string were received so\n                # far (RFC 4253 section 4.2); wait for the version string.\n                return\n',
+           '            if not self.gotVersion:\n                # Only lines preceding the version string were received so\n                # far (RFC 4253 section 4.2); wait for the version string.\n                return\n', expect_rule="version/first-version-line-only"),
+    Mutant("revert-F35b-scan-continues-after-version-line-structural", TR, '                    # Everything after the version line is binary packet\n                    # data, not more identification lines.\n                    break\n            else:\n                # Only lines preceding the version string were received so\n                # far (RFC 4253 section 4.2); wait for the version string.\n                return\n',
+           '            if not self.gotVersion:\n                # Only lines preceding the version string were received so\n                # far (RFC 4253 section 4.2); wait for the version string.\n                return\n', expect_rule="s/version/first-version-line-only"),
 ]
 SILENT = [
     Silent("verify-result-in-named-boolean", TR, "            if not self.currentEncryptions.verify(\n                self.incomingPacketSequence, packet, macData\n            ):\n                self.sendDisconnect(DISCONNECT_MAC_ERROR, b\"bad MAC\")\n                return\n",
@@ -963,6 +976,6 @@ SILENT = [
            "        if ms > 0:\n            tag, self.buf = self.buf[:ms], self.buf[ms:]\n            if self.currentEncryptions.verify(self.incomingPacketSequence, packet, tag):\n                pass\n            else:\n                self.sendDisconnect(DISCONNECT_MAC_ERROR, b\"bad MAC\")\n                return None\n"),
     Silent("wait-test-reordered", TR, "        if len(self.buf) < packetLen + 4 + ms:", "        if not len(self.buf) >= 4 + ms + packetLen:"),
     Silent("sequence-plain-assignment", TR, "        self.incomingPacketSequence += 1\n        return payload", "        self.incomingPacketSequence = self.incomingPacketSequence + 1\n        return payload"),
-    Silent("repair-F35a-and-F35b", TR, "                    i = lines.index(p)\n                    self.buf = b\"\\n\".join(lines[i + 1 :])\n        packet = self.getPacket()",
-           "                    i = lines.index(p)\n                    self.buf = b\"\\n\".join(lines[i + 1 :])\n                    break\n            if not self.gotVersion:\n                return\n        packet = self.getPacket()"),
+    Silent("repair-spelled-with-a-flag-test", TR, '                    break\n            else:\n                # Only lines preceding the version string were received so\n                # far (RFC 4253 section 4.2); wait for the version string.\n                return\n        packet = self.getPacket()',
+           '                    break\n            if not self.gotVersion:\n                return\n        packet = self.getPacket()'),
 ]
